@@ -1,0 +1,106 @@
+//go:build verif
+
+package swap
+
+import (
+	"context"
+	"sync/atomic"
+	"time"
+)
+
+// Verification hooks, only compiled with `-tags verif`. They let an external
+// harness shorten the wall-clock waits of the swap state machine and replace
+// the in-memory timeout service by a virtual clock.
+
+var (
+	verifBackoffSkip atomic.Bool
+	verifPayRetry    atomic.Int64
+	verifPayInterval atomic.Int64
+	verifRetryNanos  atomic.Int64
+)
+
+// VerifSetSkipBackoff disables the sleep between Event_OnRetry rounds.
+func VerifSetSkipBackoff(on bool) { verifBackoffSkip.Store(on) }
+
+// VerifSetPayTiming overrides the retry budget and the interval of the claim
+// payment loop. A zero value keeps the built-in one.
+func VerifSetPayTiming(retryTime, interval time.Duration) {
+	verifPayRetry.Store(int64(retryTime))
+	verifPayInterval.Store(int64(interval))
+}
+
+// VerifSetRetryDur overrides the retransmission interval of
+// SendMessageWithRetryAction. Zero keeps the built-in one.
+func VerifSetRetryDur(d time.Duration) { verifRetryNanos.Store(int64(d)) }
+
+func verifSkipBackoff() bool { return verifBackoffSkip.Load() }
+
+func verifPayTiming(retryTime, interval time.Duration) (time.Duration, time.Duration) {
+	if v := verifPayRetry.Load(); v > 0 {
+		retryTime = time.Duration(v)
+	}
+	if v := verifPayInterval.Load(); v > 0 {
+		interval = time.Duration(v)
+	}
+	return retryTime, interval
+}
+
+func verifRetryDur(d time.Duration) time.Duration {
+	if v := verifRetryNanos.Load(); v > 0 {
+		return time.Duration(v)
+	}
+	return d
+}
+
+// VerifTimeoutFunc receives every timeout the swap service arms: the context
+// that would cancel it, its duration, the swap id and the callback the real
+// timer would run on expiry.
+type VerifTimeoutFunc func(ctx context.Context, d time.Duration, swapId string, fire func())
+
+type verifTimeOutService struct {
+	fn      VerifTimeoutFunc
+	factory callbackFactory
+}
+
+func (v *verifTimeOutService) addNewTimeOut(ctx context.Context, d time.Duration, id string) {
+	v.fn(ctx, d, id, v.factory(id))
+}
+
+// VerifSetTimeouts replaces the timeout service (call after Start, which
+// installs the real one).
+func (s *SwapService) VerifSetTimeouts(fn VerifTimeoutFunc) {
+	s.swapServices.toService = &verifTimeOutService{fn: fn, factory: s.createTimeoutCallback}
+}
+
+// VerifStateTables returns the four state tables keyed by "type/role".
+func VerifStateTables() map[string]States {
+	return map[string]States{
+		"in/sender":    getSwapInSenderStates(),
+		"in/receiver":  getSwapInReceiverStates(),
+		"out/sender":   getSwapOutSenderStates(),
+		"out/receiver": getSwapOutReceiverStates(),
+	}
+}
+
+// VerifActiveSwap describes one entry of the active swap map.
+type VerifActiveSwap struct {
+	Id      string
+	Machine *SwapStateMachine
+	Current StateType
+	Scid    string
+	Peer    string
+}
+
+// VerifActiveSwaps returns a snapshot of the active swap map.
+func (s *SwapService) VerifActiveSwaps() []VerifActiveSwap {
+	s.RLock()
+	defer s.RUnlock()
+	res := make([]VerifActiveSwap, 0, len(s.activeSwaps))
+	for id, sm := range s.activeSwaps {
+		sm.stateMutex.Lock()
+		cur := sm.Current
+		sm.stateMutex.Unlock()
+		res = append(res, VerifActiveSwap{Id: id, Machine: sm, Current: cur, Scid: sm.Data.GetScid(), Peer: sm.Data.PeerNodeId})
+	}
+	return res
+}
